@@ -34,6 +34,14 @@ def run (case _impl : String) : String :=
     | none => "bad-case"
   | ["conn", wc, ops] => if wc == "0" || wc == "1" then C02.runConn (C02.splitOps ops) else "bad-case"
   | ["conn", wc] => if wc == "0" || wc == "1" then C02.runConn [] else "bad-case"
+  | ["race", cfg, seed] =>
+    -- multi-thread race of submissions with a connection reset: not deterministic, judged by the oracle only
+    -- ("every submitted request completes": `Props.C10.race_window_drains`); the model's line is the constant
+    match cfg.splitOn "/", seed.toNat? with
+    | [wc, th, su, per, fault], some _ =>
+      if (wc == "0" || wc == "1") && th.toNat?.isSome && su.toNat?.isSome && per.toNat?.isSome &&
+          (fault == "fin" || fault == "garbage" || fault == "unsolicited") then "race" else "bad-case"
+    | _, _ => "bad-case"
   | "ka" :: cfg :: rest =>
     match cfg.splitOn "/", rest with
     | [wc, i, t], ops =>
